@@ -108,6 +108,7 @@ Definition extras (c : jv) (model_out : jv) : list (str * str) :=
     (s_ "oC09frame", b2s (if jsx_free input && negb (o_resolve_type (e_opts E))
                           then jv_eqb real_j (jfield_d "input" c) else true));
     (s_ "jsxfree_in", b2s (jsx_free input));
+    (s_ "same_in", b2s (jv_eqb real_j (jfield_d "input" c)));
     (s_ "oC09idem", b2s (match rdiags with
                          | [] => jv_eqb (jfield_d "output2" c) real_j
                          | _ => true
